@@ -126,11 +126,24 @@ impl World {
             Op::Default { .. } => LeanString::default(),
             Op::FromText { via, text, .. } => match via {
                 Via::Str => LeanString::from(text.as_str()),
-                Via::String => LeanString::from(text.clone()),
+                Via::String => {
+                    if text.len() % 3 == 0 {
+                        // an owned input whose capacity is larger than its text
+                        let mut owned = String::with_capacity(text.len() + 37);
+                        owned.push_str(text);
+                        LeanString::from(owned)
+                    } else {
+                        LeanString::from(text.clone())
+                    }
+                }
                 Via::RefString => LeanString::from(text),
                 Via::BoxStr => LeanString::from(text.clone().into_boxed_str()),
                 Via::CowB => LeanString::from(Cow::Borrowed(text.as_str())),
-                Via::CowO => LeanString::from(Cow::<str>::Owned(text.clone())),
+                Via::CowO => {
+                    let mut owned = String::with_capacity(text.len() + (text.len() % 2) * 29);
+                    owned.push_str(text);
+                    LeanString::from(Cow::<str>::Owned(owned))
+                }
                 Via::Parse => LeanString::from_str(text).map_err(|_| Outcome::ReserveErr)?,
                 Via::Utf8 => LeanString::from_utf8(text.as_bytes()).map_err(|_| Outcome::DecodeErr)?,
                 Via::Utf8Unchecked => unsafe { LeanString::from_utf8_unchecked(text.as_bytes()) },
